@@ -8,6 +8,7 @@ import (
 	"fmt"
 	"go/token"
 	"go/types"
+	"os"
 	"strings"
 
 	"golang.org/x/tools/go/ssa"
@@ -140,6 +141,16 @@ func ruleGetOrCreate(c *Ctx) {
 		if addEv.Args[2].strip().Key() != res.Key() {
 			report("getorcreate-atomic", "the entry inserted ("+prettyTerm(addEv.Args[2])+") is not the entry handed out on "+where)
 		}
+		// the key under which the new entry finds / writes its persisted record is the request's key itself
+		if kf := c.P.StructField("cache", "httpCache", "key"); kf != nil && res.Op == "alloc" {
+			for _, e := range pr.Events {
+				if e.Kind == "store" && isFieldAddr(e.Addr, kf) && e.Addr.Args[0].Key() == res.Key() {
+					if kv := e.Val; !(kv.Key() == key.Key() || kv.IsNil()) {
+						report("full-key-lookup", "the new entry addresses its persisted record by "+prettyTerm(kv)+", not by the request's key (a key built on shared backing memory, or a transformed key, lets entries read and overwrite each other's records) on "+where)
+					}
+				}
+			}
+		}
 	})
 	if sim.Overflow || n == 0 || creates == 0 || hits == 0 {
 		c.undecided("getorcreate-atomic", name, pos, fmt.Sprintf("idiom not recognised (paths=%d creates=%d hits=%d)", n, creates, hits))
@@ -257,6 +268,12 @@ func ruleKey(c *Ctx) {
 			return
 		}
 		buf := pr.Results[0]
+		// the same key built by appending the components onto an empty buffer allocated here
+		var appended []*Term
+		if base, parts, isChain := appendChain(buf); isChain && base.Op == "make" && strings.HasPrefix(base.Name, "slice:") && len(base.Args) > 0 && isZeroInt(base.Args[0]) {
+			appended = parts
+			buf = base
+		}
 		if !(buf.Op == "make" && strings.HasPrefix(buf.Name, "slice:")) {
 			fresh = append(fresh, "the key is "+prettyTerm(buf)+", not a buffer allocated by this call (the LRU keeps a zero-copy view of these bytes; a pooled or shared buffer rewrites stored keys) on "+where)
 			return
@@ -300,6 +317,18 @@ func ruleKey(c *Ctx) {
 					comps = append(comps, "byte "+prettyTerm(e.Val)+" written into the key on "+where)
 				}
 			}
+			// no other write into the key: element stores through a sub-slice, or the
+			// buffer (or a view of it) handed to a callee that is not inlined
+			if e.Kind == "store" && e.Addr.Op == "ia" && e.Addr.Args[0].Key() != buf.Key() && e.Addr.Args[0].contains(func(x *Term) bool { return x.Key() == buf.Key() }) {
+				comps = append(comps, "bytes of the key are rewritten after its components were copied in ("+prettyTerm(e.Addr)+" := "+prettyTerm(e.Val)+"): requests differing in those bytes share an entry, on "+where)
+			}
+			if (e.Kind == "call" || e.Kind == "invoke") && e.Callee != nil {
+				for _, arg := range e.Args {
+					if arg.Key() == buf.Key() || (arg.Op == "slice" && arg.contains(func(x *Term) bool { return x.Key() == buf.Key() })) {
+						comps = append(comps, "the key buffer is handed to "+funcName(e.Callee)+", which may rewrite it, on "+where)
+					}
+				}
+			}
 		}
 		fieldName := func(t *Term) string {
 			for t != nil && t.Op == "conv" {
@@ -313,6 +342,27 @@ func ruleKey(c *Ctx) {
 			}
 			return prettyTerm(t)
 		}
+		if appended != nil {
+			ws = ws[:0]
+			for _, part := range appended {
+				if part.Op == "slice" && part.Args[0].Op == "alloc" {
+					// a variadic element list: single bytes
+					cnt := 0
+					for k, loc := range pr.State.heapLoc {
+						if loc.Op == "ia" && loc.Args[0].Key() == part.Args[0].Key() {
+							cnt++
+							if v, ok := pr.State.heap[k].IntVal(); ok && v == ' ' && cnt == 1 {
+								ws = append(ws, wr{nil, nil})
+							} else {
+								comps = append(comps, "byte(s) "+prettyTerm(pr.State.heap[k])+" appended to the key on "+where)
+							}
+						}
+					}
+					continue
+				}
+				ws = append(ws, wr{nil, part})
+			}
+		}
 		if len(ws) != 5 {
 			comps = append(comps, fmt.Sprintf("%d writes into the key instead of method, SP, host, SP, uri on %s", len(ws), where))
 			return
@@ -320,7 +370,7 @@ func ruleKey(c *Ctx) {
 		wantSrc := []string{"Method", "", "Host", "", "uri"}
 		var off *Term = intTerm(0)
 		for i, w := range ws {
-			if !sameLinear(substTerm(w.off, subst), off) {
+			if appended == nil && !sameLinear(substTerm(w.off, subst), off) {
 				comps = append(comps, fmt.Sprintf("component %d is written at offset %s, expected %s (components overlap or leave gaps) on %s", i, prettyTerm(w.off), prettyTerm(off), where))
 			}
 			if w.src == nil {
@@ -356,7 +406,7 @@ func ruleKey(c *Ctx) {
 			}
 			off = binTerm(addTok, off, &Term{Op: "len", Type: tInt, Args: []*Term{stripConvTerm(w.src)}}, tInt)
 		}
-		if !sameLinear(buf.Args[0], off) {
+		if appended == nil && !sameLinear(buf.Args[0], off) {
 			comps = append(comps, "the buffer length "+prettyTerm(buf.Args[0])+" differs from the bytes written "+prettyTerm(off)+" on "+where)
 		}
 	})
@@ -612,8 +662,19 @@ func ruleStoreKeys(c *Ctx) {
 									}
 								}
 							}
+						} else if ia, ok := x.Addr.(*ssa.IndexAddr); ok {
+							// element of a variadic argument list: follow the list to its call
+							if arr, ok := ia.X.(*ssa.Alloc); ok && arr.Referrers() != nil {
+								for _, rr := range *arr.Referrers() {
+									if sl, ok := rr.(*ssa.Slice); ok {
+										follow(sl, depth+1)
+									}
+								}
+							} else {
+								used = true
+							}
 						} else {
-							used = true // element of an argument list / struct handed to the back end
+							used = true // field of a struct handed to the back end
 						}
 					case *ssa.MakeClosure:
 						for bi, bnd := range x.Bindings {
@@ -632,8 +693,10 @@ func ruleStoreKeys(c *Ctx) {
 							if val, ok := x.(ssa.Value); ok {
 								follow(val, depth+1)
 							}
-						} else {
+						} else if why := keyCalleeVerdict(cc); why == "" {
 							used = true
+						} else if why != "ignore" {
+							bad = append(bad, fmt.Sprintf("%s: the key goes through %s before it addresses the record (keys that differ may be mapped to one record)", c.P.pos(x.Pos()), why))
 						}
 					}
 				}
@@ -648,6 +711,41 @@ func ruleStoreKeys(c *Ctx) {
 	if n < 9 {
 		c.undecided("store-full-key", "store.Store", "-", fmt.Sprintf("only %d Get/Set/Delete implementations found (expected 3 back ends x 3)", n))
 	}
+}
+
+// keyCalleeVerdict classifies a non-pike callee that receives the store key:
+// "" = a back-end client call (the key is used as given), "ignore" = reads only
+// its length, otherwise the name of a library function that transforms it.
+func keyCalleeVerdict(cc *ssa.CallCommon) string {
+	if b, ok := cc.Value.(*ssa.Builtin); ok && !cc.IsInvoke() {
+		switch b.Name() {
+		case "len", "cap", "print", "println":
+			return "ignore"
+		}
+		return "builtin " + b.Name()
+	}
+	path, name := "", ""
+	if cc.IsInvoke() {
+		if cc.Method.Pkg() != nil {
+			path = cc.Method.Pkg().Path()
+		}
+		name = cc.Method.FullName()
+	} else if sc := cc.StaticCallee(); sc != nil {
+		if sc.Pkg != nil {
+			path = sc.Pkg.Pkg.Path()
+		} else if sc.Object() != nil && sc.Object().Pkg() != nil {
+			path = sc.Object().Pkg().Path()
+		}
+		name = sc.String()
+	} else {
+		return "a dynamic call"
+	}
+	for _, be := range []string{"github.com/dgraph-io/badger", "github.com/go-redis/redis", "go.mongodb.org/mongo-driver"} {
+		if strings.HasPrefix(path, be) {
+			return ""
+		}
+	}
+	return name
 }
 
 // ruleCapacity: for every int size, each shard limit is >= 1 and the limits add
@@ -722,17 +820,17 @@ func ruleCapacity(c *Ctx) {
 				if ci, ok := in.(ssa.CallInstruction); ok {
 					if sc := ci.Common().StaticCallee(); sc != nil && sc.String() == "github.com/golang/groupcache/lru.New" {
 						sites++
-						if f.Name() != "newHTTPLRUCache" {
-							bad = append(bad, fmt.Sprintf("%s: lru.New called from %s", c.P.pos(in.Pos()), funcName(f)))
+						if !onlyReachedFrom(c.P, f, fn, map[*ssa.Function]bool{}) {
+							bad = append(bad, fmt.Sprintf("%s: lru.New is called from %s, which is reachable other than through %s (a shard built or rebuilt outside the capacity arithmetic)", c.P.pos(in.Pos()), funcName(f), funcName(fn)))
 						}
-					}
-					if sc := ci.Common().StaticCallee(); sc != nil && sc.Name() == "newHTTPLRUCache" && f.Name() != "NewDispatcher" {
-						bad = append(bad, fmt.Sprintf("%s: a shard is built outside NewDispatcher, in %s", c.P.pos(in.Pos()), funcName(f)))
 					}
 				}
 				if st, ok := in.(*ssa.Store); ok {
 					if fa, ok := st.Addr.(*ssa.FieldAddr); ok {
 						fv := fieldOf(fa.X.Type(), fa.Field)
+						if fv.Pkg() != nil && fv.Pkg().Path() == "github.com/golang/groupcache/lru" && fv.Name() == "OnEvicted" && harmlessEvictionHook(st) {
+							continue // an observer installed on a cache built in the same function
+						}
 						if fv.Pkg() != nil && fv.Pkg().Path() == "github.com/golang/groupcache/lru" {
 							bad = append(bad, fmt.Sprintf("%s: %s writes lru.Cache.%s (limit/eviction hook changed behind the capacity arithmetic)", c.P.pos(st.Pos()), funcName(f), fv.Name()))
 						}
@@ -744,8 +842,106 @@ func ruleCapacity(c *Ctx) {
 	if sites == 0 {
 		c.undecided("only-constructor", "lru.New", "-", "no call of lru.New found")
 	} else {
-		c.check(len(bad) == 0, "only-constructor", "lru.New", pos, "lru.New is called only from newHTTPLRUCache, shards are built only by NewDispatcher, no pike code writes lru.Cache fields", strings.Join(uniq(bad), " || "), sites)
+		c.check(len(bad) == 0, "only-constructor", "lru.New", pos, "lru.New is reached only through NewDispatcher, no pike code writes lru.Cache's limit (an eviction hook may only observe)", strings.Join(uniq(bad), " || "), sites)
 	}
+}
+
+// onlyReachedFrom: f is root, or an unexported function all of whose static
+// callers are (transitively) so, and whose address is never taken.
+func onlyReachedFrom(p *Program, f, root *ssa.Function, seen map[*ssa.Function]bool) bool {
+	if f == root {
+		return true
+	}
+	if seen[f] {
+		return true
+	}
+	seen[f] = true
+	if f.Object() != nil && f.Object().Exported() {
+		return false
+	}
+	callers := 0
+	for _, g := range p.allFuncs {
+		for _, b := range g.Blocks {
+			for _, in := range b.Instrs {
+				for _, op := range in.Operands(nil) {
+					if *op != ssa.Value(f) {
+						continue
+					}
+					ci, ok := in.(ssa.CallInstruction)
+					if !ok || ci.Common().Value != f {
+						return false // used as a value
+					}
+					if _, isGo := in.(*ssa.Go); isGo {
+						return false
+					}
+					callers++
+					if !onlyReachedFrom(p, g, root, seen) {
+						return false
+					}
+				}
+			}
+		}
+	}
+	return callers > 0
+}
+
+// harmlessEvictionHook: the OnEvicted hook stored by st is a function literal
+// that neither calls back into an lru.Cache nor keeps the evicted key or value,
+// and it is installed on a cache built in the same function.
+func harmlessEvictionHook(st *ssa.Store) bool {
+	fa := st.Addr.(*ssa.FieldAddr)
+	fresh := false
+	if call, ok := fa.X.(*ssa.Call); ok {
+		if sc := call.Call.StaticCallee(); sc != nil && sc.String() == "github.com/golang/groupcache/lru.New" {
+			fresh = true
+		}
+	}
+	if ld, ok := fa.X.(*ssa.UnOp); ok {
+		// the cache field of the shard being built in this function
+		if ofa, ok := ld.X.(*ssa.FieldAddr); ok {
+			if _, isAlloc := ofa.X.(*ssa.Alloc); isAlloc {
+				fresh = true
+			}
+		}
+	}
+	if !fresh {
+		return false
+	}
+	var hook *ssa.Function
+	switch x := st.Val.(type) {
+	case *ssa.MakeClosure:
+		hook, _ = x.Fn.(*ssa.Function)
+	case *ssa.Function:
+		hook = x
+	}
+	if hook == nil || hook.Blocks == nil {
+		return false
+	}
+	for _, b := range hook.Blocks {
+		for _, in := range b.Instrs {
+			if ci, ok := in.(ssa.CallInstruction); ok {
+				if sc := ci.Common().StaticCallee(); sc != nil && strings.Contains(sc.String(), "groupcache/lru.") {
+					return false
+				}
+				if ci.Common().StaticCallee() == nil && !ci.Common().IsInvoke() {
+					if _, isB := ci.Common().Value.(*ssa.Builtin); !isB {
+						return false
+					}
+				}
+			}
+		}
+	}
+	for _, prm := range hook.Params {
+		if prm.Referrers() == nil {
+			continue
+		}
+		for _, r := range *prm.Referrers() {
+			if !transientUse(prm, r, map[ssa.Value]bool{}, 0) {
+				return false
+			}
+		}
+	}
+	return true
 }
 
 // ruleEntryContainers: pointers to cache entries are retained only by the
@@ -821,6 +1017,9 @@ func ruleEntryContainers(c *Ctx, a *cacheAnchors) {
 					if _, ok := r.(*ssa.Return); ok {
 						okUse = true
 					}
+					if !okUse && transientUse(mi, r, map[ssa.Value]bool{}, 0) {
+						okUse = true
+					}
 					if !okUse {
 						bad = append(bad, fmt.Sprintf("%s: an entry is boxed and handed to something other than lru.Cache.Add in %s", c.P.pos(r.Pos()), funcName(f)))
 					}
@@ -829,6 +1028,164 @@ func ruleEntryContainers(c *Ctx, a *cacheAnchors) {
 		}
 	}
 	c.check(len(bad) == 0, "entry-containers", "cache", "cache/dispatcher.go", fmt.Sprintf("%d fields/variables/boxings examined: only lru.Cache.Add retains *httpCache values", n), strings.Join(uniq(bad), " || "), n)
+}
+
+// transientUse: instruction r uses the boxed value v only for the duration of a
+// call: as the receiver of an interface call, as an argument of a pike function
+// whose parameter is in turn only used transiently, or captured by a function
+// literal that is only called or deferred.
+func transientUse(v ssa.Value, r ssa.Instruction, seen map[ssa.Value]bool, depth int) bool {
+	if depth > 5 {
+		return false
+	}
+	all := func(x ssa.Value) bool {
+		if seen[x] {
+			return true
+		}
+		seen[x] = true
+		if x.Referrers() == nil {
+			return false
+		}
+		for _, r2 := range *x.Referrers() {
+			if !transientUse(x, r2, seen, depth+1) {
+				if os.Getenv("PL_DEBUG") != "" {
+					fmt.Fprintf(os.Stderr, "transientUse: %s used by %T %s\n", x, r2, r2)
+				}
+				return false
+			}
+		}
+		return true
+	}
+	switch x := r.(type) {
+	case *ssa.DebugRef:
+		return true
+	case ssa.CallInstruction:
+		cc := x.Common()
+		if cc.IsInvoke() && cc.Value == v {
+			for _, a := range cc.Args {
+				if a == v {
+					return false
+				}
+			}
+			return true
+		}
+		if _, isGo := r.(*ssa.Go); isGo {
+			return false
+		}
+		sc := cc.StaticCallee()
+		if cc.Value == v && sc == nil {
+			return true // the value is itself the function being called (a closure)
+		}
+		if sc == nil || sc.Blocks == nil || !isPikeFunc(sc) {
+			return false
+		}
+		for i, a := range cc.Args {
+			if a == v {
+				if i >= len(sc.Params) || !all(sc.Params[i]) {
+					return false
+				}
+			}
+		}
+		return true
+	case *ssa.MakeClosure:
+		fn, ok := x.Fn.(*ssa.Function)
+		if !ok {
+			return false
+		}
+		for i, bnd := range x.Bindings {
+			if bnd == v && !all(fn.FreeVars[i]) {
+				return false
+			}
+		}
+		// the literal itself must only be called / deferred
+		if x.Referrers() == nil {
+			return false
+		}
+		for _, r2 := range *x.Referrers() {
+			switch y := r2.(type) {
+			case *ssa.Defer:
+				if y.Call.Value != x {
+					return false
+				}
+			case *ssa.Call:
+				if y.Call.Value != x {
+					return false
+				}
+			case *ssa.DebugRef:
+			default:
+				return false
+			}
+		}
+		return true
+	case *ssa.Store:
+		// spilled into a local variable (captured by a function literal): every read of
+		// that variable must be transient too
+		if x.Val != v {
+			return true
+		}
+		var cell func(p ssa.Value, d int) bool
+		cell = func(p ssa.Value, d int) bool {
+			if d > 3 || p.Referrers() == nil {
+				return false
+			}
+			if seen[p] {
+				return true
+			}
+			seen[p] = true
+			for _, r2 := range *p.Referrers() {
+				switch y := r2.(type) {
+				case *ssa.Store:
+					if y.Addr != p {
+						return false
+					}
+				case *ssa.UnOp:
+					if !all(y) {
+						return false
+					}
+				case *ssa.MakeClosure:
+					fn, ok := y.Fn.(*ssa.Function)
+					if !ok {
+						return false
+					}
+					for i, bnd := range y.Bindings {
+						if bnd == p && !cell(fn.FreeVars[i], d+1) {
+							return false
+						}
+					}
+					for _, r3 := range *y.Referrers() {
+						switch z := r3.(type) {
+						case *ssa.Defer:
+							if z.Call.Value != y {
+								return false
+							}
+						case *ssa.Call:
+							if z.Call.Value != y {
+								return false
+							}
+						case *ssa.DebugRef:
+						default:
+							return false
+						}
+					}
+				case *ssa.DebugRef:
+				default:
+					return false
+				}
+			}
+			return true
+		}
+		al, ok := x.Addr.(*ssa.Alloc)
+		return ok && cell(al, 0)
+	case *ssa.Phi:
+		return all(x)
+	case *ssa.ChangeInterface:
+		return all(x)
+	case *ssa.TypeAssert:
+		return true // back to the concrete entry type: covered by the static field/variable scan
+	case *ssa.BinOp:
+		return true // comparison with nil
+	}
+	return false
 }
 
 // rulePurge: RemoveHTTPCache removes the key from the shard the lookup uses and,
@@ -877,6 +1234,9 @@ func rulePurge(c *Ctx, a *cacheAnchors) {
 				}
 			case e.Kind == "invoke" && e.Method != nil && e.Method.Name() == "Delete":
 				deleted = true
+				if !locked {
+					bad = append(bad, "the persisted record is deleted without the shard lock held (a request racing the purge re-creates the entry and restores it from the not-yet-deleted record) on "+where)
+				}
 				if e.Args[1].Key() != key.Key() {
 					bad = append(bad, "the record deleted is "+prettyTerm(e.Args[1])+", not the key, on "+where)
 				}
